@@ -102,6 +102,43 @@ func clip(s string, n int) string {
 	return s
 }
 
+// CheckFail is the oracle for the command's own verdict. The file is put into
+// a scratch directory and formatted the way the CLI formats a directory
+// (`templ fmt <dir>`, fmtcmd.Run with Files); then `templ fmt -fail <dir>` runs:
+//
+//   - if the second run leaves the bytes as the first run left them, -fail must
+//     succeed (class "fails-unchanged": CI keeps failing on a formatted file);
+//   - if the second run changes the bytes, -fail must fail ("passes-changed").
+//
+// Files the first run refuses are skipped (fmt_refused). Whether the bytes
+// change at all on the second run is CheckFile's question, not this one's.
+func CheckFail(src string) tsrc.Outcome {
+	if _, err := tsrc.Gen(src); err != nil {
+		return tsrc.Outcome{}
+	}
+	v, err := tsrc.FmtDirVerdict(src)
+	if err != nil {
+		return tsrc.Outcome{Accepted: true, Note: "fmtfail_infrastructure"}
+	}
+	if v.Err1 != nil {
+		return tsrc.Outcome{Accepted: true, Note: "fmt_refused"}
+	}
+	o := tsrc.Outcome{Accepted: true, Changed: v.After1 != src}
+	switch {
+	case v.After2 == v.After1 && v.Err2 != nil:
+		o.Class = "fails-unchanged"
+		o.Detail = fmt.Sprintf("after one `templ fmt` run the file is %s; `templ fmt -fail` leaves it byte-identical but fails: %v", core.Q(clip(v.After1, 300)), v.Err2)
+	case v.After2 != v.After1 && v.Err2 == nil:
+		o.Class = "passes-changed"
+		o.Detail = fmt.Sprintf("`templ fmt -fail` succeeds although it rewrote the file: %s -> %s", core.Q(clip(v.After1, 300)), core.Q(clip(v.After2, 300)))
+	case v.After2 == v.After1:
+		o.Note = "fmtfail_passes_on_unchanged"
+	default:
+		o.Note = "fmtfail_fails_on_changed"
+	}
+	return o
+}
+
 // CheckSave is the oracle of format-on-save for one whole file x:
 //
 //  1. x counts if `templ generate` accepts it and `templ fmt <file>` (CheckFile's
@@ -218,7 +255,19 @@ func Run(c *core.Ctx) {
 	for _, cl := range tsrc.ImportCells() {
 		progs = append(progs, tsrc.Prog{Origin: "impcell:" + cl.Name, Src: cl.Src})
 	}
+	for _, cl := range tsrc.CRLFCells() { // Windows / mixed line endings around verbatim regions
+		progs = append(progs, tsrc.Prog{Origin: "crlfcell:" + cl.Name, Src: cl.Src})
+	}
 	rf.RunFile(progs)
+
+	// the CLI's own verdict: `templ fmt <dir>` then `templ fmt -fail <dir>`
+	rv := tsrc.NewRunner(c, CheckFail, "templ fmt -fail disagrees with the bytes")
+	rv.Mode, rv.KeyPrefix, rv.NoRename = "fmtfail", "fmtfail:", true
+	vprogs := append([]tsrc.Prog{}, progs...)
+	for _, cl := range tsrc.SaveCells() {
+		vprogs = append(vprogs, tsrc.Prog{Origin: "savecell:" + cl.Name, Src: cl.Src})
+	}
+	rv.RunFile(vprogs)
 
 	// format-on-save through the LSP server
 	c.Assume("format-on-save is driven in-process: proxy.NewServer without gopls, document opened with TemplSource.Set, Server.Formatting called with an editor stub; the returned TextEdits are applied to the original text by the harness's own LSP client model (lines split at LF, UTF-16 characters, positions beyond the end clamp) — never by proxy.Document")
